@@ -51,18 +51,33 @@ def generate() -> str:
                     works_on_copy = "true"
                     crops_first = "true" if seen_crop else "false"
             if var and isinstance(st, ast.If):
-                m = re.fullmatch(rf"isinstance\({var}, (\w+)\)", src(st.test))
-                assigns = [n for n in ast.walk(st) if isinstance(n, ast.Assign) and len(n.targets) == 1 and src(n.targets[0]) == var]
-                if not assigns:
-                    continue            # a phase that does not replace the object (the final return block)
-                g = TY.get(m.group(1), f"(.other {lean_str(m.group(1))})") if m else f"(.other {lean_str(src(st.test))})"
-                if len(assigns) != 1 or not isinstance(assigns[0].value, ast.Call) or st.orelse or assigns[0] not in st.body:
-                    phases.append(f"{{ guard := {g}, act := (.other {lean_str('not a single top-level call')}), wiring := [] }}")
-                    continue
-                call = assigns[0].value
-                wiring = [(str(i), src(a)) for i, a in enumerate(call.args)] + [(k.arg or "**", src(k.value)) for k in call.keywords]
-                wiring = [(k, v.replace(var, "PAIR")) for k, v in wiring]
-                phases.append(f"{{ guard := {g}, act := {act_of(call)}, wiring := [" + ", ".join(f"({lean_str(k)}, {lean_str(v)})" for k, v in sorted(wiring)) + "] }")
+                def phase_of(node, outer_ty=None):
+                    """phases contributed by `if isinstance(var, T): ...` — its own call, then any nested phase with the SAME guard type
+                    placed after it (which can only be entered through the outer one, so it is the same as a following phase)"""
+                    m = re.fullmatch(rf"isinstance\({var}, (\w+)\)", src(node.test))
+                    direct = [n for n in node.body if isinstance(n, ast.Assign) and len(n.targets) == 1 and src(n.targets[0]) == var]
+                    nested = [n for n in node.body if isinstance(n, ast.If) and any(isinstance(x, ast.Assign) and len(x.targets) == 1 and src(x.targets[0]) == var for x in ast.walk(n))]
+                    deep = [n for n in ast.walk(node) if isinstance(n, ast.Assign) and len(n.targets) == 1 and src(n.targets[0]) == var]
+                    if not deep:
+                        return []
+                    g = TY.get(m.group(1), f"(.other {lean_str(m.group(1))})") if m else f"(.other {lean_str(src(node.test))})"
+                    bad = f"{{ guard := {g}, act := (.other {lean_str('not a single top-level call')}), wiring := [] }}"
+                    if outer_ty is not None and (not m or m.group(1) != outer_ty):
+                        return [bad]
+                    if len(direct) != 1 or not isinstance(direct[0].value, ast.Call) or node.orelse:
+                        return [bad]
+                    if len(deep) != 1 + sum(len([x for x in ast.walk(n) if isinstance(x, ast.Assign) and len(x.targets) == 1 and src(x.targets[0]) == var]) for n in nested):
+                        return [bad]
+                    if any(node.body.index(n) < node.body.index(direct[0]) for n in nested):
+                        return [bad]
+                    call = direct[0].value
+                    wiring = [(str(i), src(a)) for i, a in enumerate(call.args)] + [(k.arg or "**", src(k.value)) for k in call.keywords]
+                    wiring = [(k, v.replace(var, "PAIR")) for k, v in wiring]
+                    out = [f"{{ guard := {g}, act := {act_of(call)}, wiring := [" + ", ".join(f"({lean_str(k)}, {lean_str(v)})" for k, v in sorted(wiring)) + "] }"]
+                    for n in nested:
+                        out += phase_of(n, m.group(1) if m else "?")
+                    return out
+                phases += phase_of(st)
             elif var and any(isinstance(n, ast.Assign) and len(n.targets) == 1 and src(n.targets[0]) == var for n in ast.walk(st)):
                 phases.append(f"{{ guard := (.other {lean_str('unguarded')}), act := (.other {lean_str(src(st)[:60])}), wiring := [] }}")
     out = ["/- GENERATED by harness/extract/phases_code.py from /repo's working tree — do not edit. -/",
